@@ -55,7 +55,7 @@ m = {
                                    "statement trees (ladder/truth-table, must-flow, call graph, provenance, symmetry, constants, clang -Wthread-safety)"}],
     "checks": checks,
     "not_applicable": na,
-    "notes": "Technique family: static analysis only. Exit 0 = obligations discharged; exit 1 + VIOLATION line; exit 2 = ANALYSIS-BROKEN (vanished anchor / front-end failure). See DESIGN.md.",
+    "notes": "Technique family: static analysis only. Exit 0 = obligations discharged; exit 1 + VIOLATION line; exit 2 = ANALYSIS-BROKEN (vanished anchor / front-end failure). See DESIGN.md. /repo carries one unguarded repair of a genuine defect found by C47: commit a98e645 'fix: merge the sighash type when combining PSBT inputs' (recorded as `fixed:` in known_findings.json; the existing test suite passes with it). Known findings (known_findings.json, printed as KNOWN-FINDING, exit 0): C63 removed-without-added on size-limit eviction (1 key), C47 finalized PSBT input re-encodes without its non-final records (18 keys, one per key type).",
 }
 json.dump(m, open(os.path.join(VERIF, "MANIFEST.json"), "w"), indent=1)
 print("checks:", len(checks), "not_applicable:", len(na))
